@@ -255,6 +255,28 @@ fn const_value_json<'tcx>(tcx: TyCtxt<'tcx>, val: ConstValue, ty: Ty<'tcx>) -> J
                         return read_alloc_elems(tcx, prov.alloc_id(), off.bytes(), n, esz, *elem);
                     }
                 }
+                // pointer to a plain struct of integers (e.g. a promoted `1..=256`): list its fields
+                if let (Scalar::Ptr(ptr, _), ty::Adt(def, args)) = (s, inner.kind()) {
+                    if def.is_struct() {
+                        if let Ok(layout) = tcx.layout_of(ty::TypingEnv::fully_monomorphized().as_query_input(*inner)) {
+                            let (prov, off) = ptr.into_raw_parts();
+                            let mut fields = Vec::new();
+                            for (i, f) in def.non_enum_variant().fields.iter().enumerate() {
+                                let fty = f.ty(tcx, args);
+                                let fo = layout.fields.offset(i).bytes();
+                                let v = match elem_size(fty) {
+                                    Some(esz) => match read_alloc_elems(tcx, prov.alloc_id(), off.bytes() + fo, 1, esz, fty) {
+                                        J::Arr(mut xs) if xs.len() == 1 => xs.remove(0),
+                                        _ => J::Null,
+                                    },
+                                    None => J::Null,
+                                };
+                                fields.push(J::obj(vec![("name", J::s(f.name.as_str())), ("v", v)]));
+                            }
+                            return J::obj(vec![("struct", J::s(&tcx.def_path_str(def.did()))), ("fields", J::Arr(fields))]);
+                        }
+                    }
+                }
                 J::Null
             }
             _ => J::Null,
